@@ -95,6 +95,39 @@ def assignment_family(first_id, per_prog=12):
     return progs, ncases
 
 
+def accessor_family(first_id):
+    """accessor inheritance: parent halves x derived halves of one accessor name x {read, write} on an instance of the derived
+    class (a class that declares only one half hides BOTH inherited halves), plus static-side lookups of the same shapes"""
+    progs = []; ncases = 0
+    cs = G.cs
+    halves = ["", "g", "s", "gs"]
+    for ph in halves:
+        for dh in halves:
+            b = G.B()
+            def cls(name, parent, h, tag):
+                gfn = sfn = 0
+                if "g" in h:
+                    body = b.add(ty="block", xs=[b.add(ty="log", a=b.add(ty="str", cs=cs(tag + "g"))), b.add(ty="return", a=b.add(ty="num", v=7 if tag == "A" else 8))])
+                    gfn = b.add(ty="func", params=[], body=body, name="g1", arrow=0, defs=[], gen=0)
+                if "s" in h:
+                    body = b.add(ty="block", xs=[b.add(ty="log", a=b.add(ty="str", cs=cs(tag + "s"))),
+                                                 b.add(ty="exprstmt", a=b.add(ty="setmember", a=b.add(ty="this"), key=cs("k1"), c=b.add(ty="var", name="p")))])
+                    sfn = b.add(ty="func", params=["p"], body=body, name="g1", arrow=0, defs=[0], gen=0)
+                return b.add(ty="classdecl", name=name, parent=parent, params=[], defs=[], body=0, hasctor=0, fkeys=[], finit=[], skeys=[], sinit=[],
+                             mkeys=[], mfuncs=[], smkeys=[], smfuncs=[], akeys=[cs("g1")] if h else [], agets=[gfn] if h else [], asets=[sfn] if h else [])
+            xs = [cls("A", "", ph, "A"), cls("B", "A", dh, "B"),
+                  b.add(ty="decl", kind="const", name="o", a=b.add(ty="new", f=b.add(ty="var", name="B"), args=[]))]
+            def guarded(stmt):      # try { stmt } catch (e) { LOG(e) }
+                return b.add(ty="try", a=b.add(ty="block", xs=[stmt]), b=b.add(ty="block", xs=[b.add(ty="log", a=b.add(ty="var", name="e"))]), cname="e", c=0)
+            xs.append(guarded(b.add(ty="log", a=b.add(ty="member", a=b.add(ty="var", name="o"), key=cs("g1")))))
+            xs.append(guarded(b.add(ty="log", a=b.add(ty="setmember", a=b.add(ty="var", name="o"), key=cs("g1"), c=b.add(ty="num", v=5)))))
+            xs.append(b.add(ty="log", a=b.add(ty="var", name="o")))
+            xs.append(guarded(b.add(ty="log", a=b.add(ty="member", a=b.add(ty="var", name="o"), key=cs("g1")))))
+            root = b.add(ty="program", xs=xs)
+            progs.append(dict(id=first_id + len(progs), root=root, nodes=b.nodes, resp=[], family="accessors")); ncases += 3
+    return progs, ncases
+
+
 def main(tier):
     c = vlib.Check("C01")
     exe = vlib.build_harness()
@@ -104,7 +137,8 @@ def main(tier):
     nrand = 2500 if quick else 40000
     fam, ncases = operator_family(1000000)
     afam, nacases = assignment_family(2000000)
-    batches = [("operator family", fam), ("logical assignment family", afam)]
+    accfam, naccs = accessor_family(3000000)
+    batches = [("operator family", fam), ("logical assignment family", afam), ("accessor inheritance family", accfam)]
     CH = 5000
     for k in range(0, nrand, CH):
         batches.append(("random programs %d" % (k // CH), mjcheck.gen_programs(c.seed * 1000 + k, min(CH, nrand - k), objects=True, gens=True, first_id=k)))
